@@ -227,7 +227,29 @@ func genBatchModel(r *gen.R) *batchModel {
 		xv := p.Values[cur]
 		rank := xv.Rank()
 		feat := rank - 1 // the last axis is never the batch axis here
-		switch r.Intn(11) {
+		switch r.Intn(12) {
+		case 11: // a second per-sample input, one value (or one row) per sample: PRelu slope / scale / shift from the batch
+			if rank == 2 && axis == 0 && len(extraInputs) < 3 {
+				N0 := xv.Shape[0]
+				cols := 1
+				if r.Chance(0.3) {
+					cols = xv.Shape[1]
+				}
+				name := fmt.Sprintf("per_sample_%d", len(extraInputs))
+				p.addInput(name, uniformT(r, ref.F32, []int{N0, cols}, 1), []mon.Dim{{Param: "N"}, {Value: int64(cols)}})
+				p.BatchAxis[name] = 0
+				extraInputs = append(extraInputs, batchedInput{name: name, shape: []int{N0, cols}, axis: 0})
+				if r.Bool() {
+					add(progNode{G: mon.GNode{Op: "PRelu", Inputs: []string{cur, name}}, Mode: CmpIEEE, Eval: approxEval(func(in []*ref.T) (*ref.Approx, error) { return ref.PRelu(in[0], in[1]) })}, axis)
+				} else {
+					op := r.PickStr("Mul", "Add", "Sub")
+					ins := []string{cur, name}
+					if r.Chance(0.3) {
+						ins = []string{name, cur}
+					}
+					add(progNode{G: mon.GNode{Op: op, Inputs: ins}, Mode: CmpIEEE, Eval: exactEval(func(in []*ref.T) (*ref.T, error) { return ref.Binary(op, in[0], in[1]) })}, axis)
+				}
+			}
 		case 10: // a per-sample statistic (.., 1) combined with the sample it came from: x op max(x) along the features
 			if rank >= 2 {
 				whole := cur
